@@ -71,9 +71,11 @@ def check_case(case, ctr):
         k = ref.index_of_extent(e)
         exp = {(case.olab(ref.concepts[j][0]), case.plab(ref.concepts[j][1]))
                for j in ref.upper_covers(k)}
+        scratch = ctx.neighbors(q)
+        del scratch[:]                      # a returned list is the caller's to change
         got = ctx.neighbors(q)
-        raw = ctx.neighbors(q, raw=True)
-        ctr['calls'] += 2
+        raw = ctx.neighbors(q, True)        # raw is the documented second positional parameter
+        ctr['calls'] += 3
         gotset = {(tuple(a), tuple(b)) for a, b in got}
         rawset = {(a.members(), b.members()) for a, b in raw}
         if len(got) != len(gotset) or {(frozenset(a), frozenset(b)) for a, b in gotset} != \
